@@ -16,7 +16,8 @@ import os, sys, random, math
 import vcommon
 from vcommon import VERIF
 
-PROPS = ["Bee2V/C05/Props.lean", "Bee2V/C05/PropsAdd.lean", "Bee2V/C05/PropsMul.lean", "Bee2V/C05/PropsBits.lean"]
+PROPS = ["Bee2V/C05/Props.lean", "Bee2V/C05/PropsAdd.lean", "Bee2V/C05/PropsMul.lean", "Bee2V/C05/PropsBits.lean",
+         "Bee2V/C05/PropsDiv.lean", "Bee2V/C05/PropsGcd.lean", "Bee2V/C05/PropsAlias.lean"]
 
 # ----------------------------------------------------------------------------- helpers
 
@@ -285,8 +286,8 @@ class G:
             self.add("wwTestBit", W, hx(a, n, W), pos)
             self.add("wwSetBit", W, hx(a, n, W), pos, r.randrange(2))
             self.add("wwFlipBit", W, hx(a, n, W), pos)
-            width = r.choice([1, 2, W - 1, W, W // 2, r.randrange(1, W + 1), 8])
-            pos = r.choice([r.randrange(n * W), (r.randrange(n) + 1) * W - r.randrange(1, width + 1), r.randrange(n) * W])
+            width = r.choice([0, 1, 2, W - 1, W, W // 2, r.randrange(1, W + 1), 8])      # 0: the empty field (bd3b537)
+            pos = r.choice([r.randrange(n * W), (r.randrange(n) + 1) * W - r.randrange(1, width + 2), r.randrange(n + 1) * W])
             pos = max(0, min(pos, n * W - width))
             self.add("wwGetBits", W, hx(a, n, W), pos, width)
             self.add("wwSetBits", W, hx(a, n, W), pos, width, r.choice([self.word(), B - 1, 0, r.randrange(B)]))
@@ -539,11 +540,35 @@ class G:
             n = self.nzlen(8)
             mod = self.modulus(n)
             a = self.below(mod)
-            m = self.length(4)
+            m = r.choice([0, 1, 1, 2, 3, 4, 4, 5, 11, 12] + ([28, 30] if self.tier == "thorough" else []))   # every qrPower window width
             e = r.choice([0, 1, 2, 3, mod - 1 if m * W >= mod.bit_length() else 5, self.val(m), (1 << (m * W)) - 1 if m else 0]) % (1 << (m * W)) if m else 0
             self.add("zzPowerMod", W, hx(a, n, W), hx(e, m, W), hx(mod, n, W))
             mw = max(1, self.word())
             self.add("zzPowerModW", W, self.word(), r.choice([0, 1, 2, 7, 8, B - 1, self.word()]), mw)
+
+    def zz_rand(self, count):
+        """zzRandMod / zzRandNZMod as functions of the generator tape: k rejected chunks (>= mod, or zero for NZ),
+        then an accepted one; k around the give-up thresholds 65 / 129"""
+        W, r = self.W, self.r
+        for _ in range(count):
+            n = self.nzlen(6)
+            mod = self.modulus(n) if r.randrange(4) else r.choice([2, 3, 255, 256, 65535, 65536, 65537, (1 << 16) - 15])
+            n = max(n, (mod.bit_length() + W - 1) // W) if mod < (1 << ((n - 1) * W)) else n
+            if mod < (1 << ((n - 1) * W)):
+                n = (mod.bit_length() + W - 1) // W
+            l = mod.bit_length()
+            c = (l + 7) // 8
+            nz = r.randrange(2)
+            k = r.choice([0, 0, 1, 2, 3, 63, 64, 65, 66, 127, 128, 129, 130, r.randrange(70)])
+            tape = b""
+            for _ in range(k):
+                bad = r.choice([(1 << (8 * c)) - 1, mod, mod + r.randrange(1 << 8), 0 if nz else mod, r.randrange(mod, 1 << l) if mod < (1 << l) else mod])
+                bad = min(bad, (1 << (8 * c)) - 1)
+                tape += bad.to_bytes(c, "little")
+            good = r.choice([self.below(mod), 1 % mod, mod - 1])
+            hi = r.getrandbits(8 * c - l) << l if 8 * c > l else 0          # bits above l are trimmed off
+            tape += (good | hi).to_bytes(c, "little") if r.randrange(8) else b""
+            self.add("zzRandNZMod" if nz else "zzRandMod", W, hx(mod, n, W), tape.hex() if tape else "-")
 
     def red_value(self, mod, n, lim):
         """2n-word value below lim: multiples of the modulus, maximal, squares of mod-1, ..."""
@@ -576,6 +601,12 @@ class G:
             self.add("zzRed", W, hx(self.red_value(mod, n, N * N), 2 * n, W), hx(mod, n, W))
             self.add("zzRedBarrStart", W, hx(mod, n, W))
             self.add("zzRedBarr", W, hx(self.red_value(mod, n, N * N), 2 * n, W), hx(mod, n, W))
+            if n >= 3 and r.randrange(3) == 0:
+                # Barrett estimate off by two (a[n] == 2 after the first subtraction): mod = B^n - d, d ~ B^(n/2)
+                d = (math.isqrt(1 + 4 * N) - 1) // 2 + r.choice([0, 0, 1, -1, r.randrange(-1000, 1000)])
+                mb = N - d
+                ab = (N * B - B) * (N // B) + N // B - 1 - r.choice([0, 0, 1, r.randrange(1 << W)])
+                self.add("zzRedBarr", W, hx(ab, 2 * n, W), hx(mb, n, W))
             mo = self.modulus(n, odd=True)
             if r.randrange(4) == 0:
                 mo = N // 2 + 1 if n * W > 1 else mo             # the modulus of the repaired stale-mask defect
@@ -647,7 +678,7 @@ class G:
     def pp(self, count):
         W, r, B = self.W, self.r, self.B
         for n in list(range(0, 21)) + [24, 27, 32, 33, 36, 40]:            # every Karatsuba size and above
-            reps = 3 if self.tier == "quick" else 8
+            reps = 6 if self.tier == "quick" else 16
             for _ in range(reps if n <= 20 else 1):
                 a, b = self.poly(n), self.poly(n)
                 self.add("ppMul", W, "d", hx(a, n, W), hx(b, n, W))
@@ -772,6 +803,24 @@ class G:
             if r.randrange(8) == 0:                              # descriptions gf2Create must reject / special shapes
                 m, k, l, l1 = r.choice([(163, 0, 0, 0), (160, 7, 0, 0), (100, 80, 0, 0), (163, 7, 0, 3), (163, 7, 6, 0), (163, 7, 7, 3),
                                         (163, 70, 6, 3), (130, 100, 6, 3), (163, 7, 6, 6)])
+            ring_only = False
+            if r.randrange(3) == 0:
+                # arbitrary descriptions accepted by gf2Create (p(x) need not be irreducible: only ring operations then);
+                # shapes: (m - k) % W == 0 (gf2RedTrinomial0), m % W == 0, k <= m % W, l <= m % W < k, l1 <= m % W < l, m % W < l1
+                ring_only = True
+                m = r.choice([r.randrange(W + 2, 9 * W), r.randrange(2, 9) * W, r.randrange(2, 9) * W + r.randrange(1, W)])
+                if r.randrange(2):
+                    if m % 8 == 0:
+                        m += 1
+                    k = r.choice([m - W * r.randrange(1, m // W + 1), r.randrange(1, m - W + 1), 1, m - W])
+                    k = min(max(k, 1), m - W)
+                    l = l1 = 0
+                else:
+                    k = r.randrange(3, W)
+                    if m - k < W:
+                        m = k + W + r.randrange(2 * W)
+                    l = r.randrange(2, k)
+                    l1 = r.randrange(1, l)
             no = (m + 7) // 8
             f = (1 << m) | (1 << k) | (1 << l) | (1 << l1) | 1 if l else (1 << m) | (1 << k) | 1
             a = r.getrandbits(m) if r.randrange(6) else r.choice([0, 1, 2, (1 << m) - 1, 1 << (m - 1)])
@@ -784,6 +833,8 @@ class G:
                 x, y = (ha, ha) if p in ("ab", "cab") else (ha, hb)
                 self.add(*pre, p, op, x, y)
             self.add(*pre, r.choice(["d", "ca"]), "sqr", ha)
+            if ring_only:
+                continue
             if a:
                 self.add(*pre, r.choice(["d", "ca"]), "inv", ha)
                 self.add(*pre, r.choice(["d", "ca", "cb"]), "div", hb, ha)
@@ -812,6 +863,15 @@ def corpus(W):
     L.append("wwSetBits %d %s %d 8 92" % (W, hx((1 << (2 * W)) - 1, 2, W), W - 4))
     L.append("wwSetBits %d %s %d 8 92" % (W, hx(0x1111111111111111111111111111111111 % (1 << (2 * W)), 2, W), W - 4))
     L.append("wwSetBits %d %s %d %d 0" % (W, hx((1 << (3 * W)) - 1, 3, W), 2 * W - 1, W))
+    # docs/C05.fix-11.diff  SAFE(zzRedBarr): first estimate off by two (a[n] == 2)
+    for n in (3, 4):
+        N = 1 << (n * W)
+        d = (math.isqrt(1 + 4 * N) - 1) // 2
+        L.append("zzRedBarr %d %s %s" % (W, hx((N * B - B) * (N // B) + N // B - 1, 2 * n, W), hx(N - d, n, W)))
+    # bd3b537 (fix-10)  empty bit field: no change / 0, no word outside W_OF_B(pos) touched
+    L.append("wwSetBits %d %s 4 0 11259375" % (W, hx(0x1111111111111111, 64 // W, W)))
+    L.append("wwSetBits %d %s %d 0 %d" % (W, hx((1 << (2 * W)) - 1, 2, W), 2 * W, B - 1))
+    L.append("wwGetBits %d %s %d 0" % (W, hx((1 << (2 * W)) - 1, 2, W), 2 * W))
     # docs/C05.fix-1.diff  zzInvMod / zzDivMod / zzAlmostInvMod with gcd(a, mod) != 1 must give 0
     L.append("zzInvMod %d d %s %s" % (W, hx(3, 1, W), hx(9, 1, W)))
     L.append("zzDivMod %d d %s %s %s" % (W, hx(5, 1, W), hx(6, 1, W), hx(9, 1, W)))
@@ -820,8 +880,7 @@ def corpus(W):
     # 13a8c37 (docs/C05.fix-2.diff)  zzDivMod / zzInvMod with a == 0 did not return
     L.append("zzInvMod %d c %s %s" % (W, hx(0, 2, W), hx(1 + (B - 2) * B, 2, W)))
     L.append("zzDivMod %d d %s %s %s" % (W, hx(5, 1, W), hx(0, 1, W), hx(9, 1, W)))
-    L.append("zm %d plain d %s inv %s" % (W, ho(0xfffffffffffffffffffffffffffffeff, 16), ho(0, 16)) if False else
-             "zzInvMod %d d %s %s" % (W, hx(0, 1, W), hx(1, 1, W)))
+    L.append("zm %d plain d %s inv %s" % (W, ho(0xfffffffffffffffffffffffffffffeff, 16), ho(1, 16)))
     # 6b1ebef (fix-3)  zzExGCD: da == bb was reduced alone, Bezout identity lost
     for a, b in ((12, 8), (5, 1), (6, 2), (1 << (W + 3), 1 << W), (3 * B, B)):
         L.append("zzExGCD %d %s %s" % (W, hx(a, 2, W), hx(b, 2, W)))
@@ -851,7 +910,7 @@ def corpus(W):
 def generate(ctx, W):
     r = random.Random(ctx.rng.getrandbits(64))
     g = G(r, W, ctx.tier)
-    q = 1 if ctx.tier == "quick" else 6
+    q = 4 if ctx.tier == "quick" else 12
     g.words(60 * q)
     g.ww(60 * q)
     g.zz_add(120 * q)
@@ -859,6 +918,7 @@ def generate(ctx, W):
     g.zz_gcd(40 * q)
     g.zz_mod(100 * q)
     g.zz_red(100 * q)
+    g.zz_rand(30 * q)
     g.zm(60 * q)
     g.pp(40 * q)
     g.gf2(30 * q)
@@ -911,9 +971,10 @@ def diff_all(ctx, exe, lines, cfg):
     return mism, c_all, l_all
 
 
-def drop_hangs(ctx, exe, lines, budget=240):
+def drop_hangs(ctx, exe, lines, budget=120):
     """A library call that does not return is a result too: find such op lines (timeout + bisection),
-    return (lines without them, [hanging lines])."""
+    return (lines without them, [hanging lines]).  Bounded: after 12 located hangs every further chunk
+    that times out is dropped as a whole (its first line is reported)."""
     import subprocess
     env = dict(os.environ, ASAN_OPTIONS="detect_leaks=0:abort_on_error=0:allocator_may_return_null=1")
 
@@ -926,17 +987,19 @@ def drop_hangs(ctx, exe, lines, budget=240):
     if ok(lines, budget):
         return lines, []
     hangs, keep = [], []
-    step = 400
+    step = 300
     for i in range(0, len(lines), step):
         chunk = lines[i:i + step]
-        if ok(chunk, 30):
+        if ok(chunk, 12):
             keep += chunk
-            continue
-        for l in chunk:
-            if len(hangs) < 8 and not ok([l], 10):
-                hangs.append(l)
-            else:
-                keep.append(l)
+        elif len(hangs) >= 12:
+            hangs.append(chunk[0])
+        else:
+            for l in chunk:
+                if ok([l], 4):
+                    keep.append(l)
+                else:
+                    hangs.append(l)
     return keep, hangs
 
 
@@ -1106,6 +1169,98 @@ def oracle(op, c_out):
                 e = x - (((x >> pos) % (1 << width)) << pos) + (v << pos)
                 if unhex(o[0]) != e:
                     return "expected %s (bits outside the field changed or field wrong)" % hx(e, n, W)
+        elif f in ("zzAdd2", "zzSub2"):
+            y, x, n = unhex(a[1]), unhex(a[2]), nwords(a[1], W)          # b op= a
+            if a[0] == "ab":
+                x = y
+            N = 1 << (n * W)
+            e = y + x if f == "zzAdd2" else y - x
+            want = (e % N, e // N if f == "zzAdd2" else (1 if e < 0 else 0))
+            if (unhex(o[0]), int(o[1])) != want:
+                return "expected %s %d" % (hx(want[0], n, W), want[1])
+        elif f in ("zzAddW", "zzSubW", "zzAddW2", "zzSubW2"):
+            x, w, n = (unhex(a[1]), int(a[2]), nwords(a[1], W)) if f in ("zzAddW", "zzSubW") else (unhex(a[0]), int(a[1]), nwords(a[0], W))
+            N = 1 << (n * W)
+            e = x + w if "Add" in f else x - w
+            if n and (unhex(o[0]), int(o[1])) != (e % N, e // N if "Add" in f else (1 if e < 0 else 0)):
+                return "expected %s" % hx(e % N, n, W)
+        elif f == "zzAdd3":
+            x, y = unhex(a[1]), unhex(a[2])
+            k = max(nwords(a[1], W), nwords(a[2], W))
+            if (unhex(o[0]), int(o[1])) != ((x + y) % (1 << (k * W)), (x + y) >> (k * W)):
+                return "expected %s" % hx(x + y, k, W)
+        elif f == "zzNeg":
+            x, n = unhex(a[1]), nwords(a[1], W)
+            if unhex(o[0]) != (-x) % (1 << (n * W)):
+                return "expected %s" % hx(-x, n, W)
+        elif f in ("wwCmp", "wwCmp2", "wwEq"):
+            x, y = unhex(a[0]), unhex(a[1])
+            e = (1 if x == y else 0) if f == "wwEq" else (x > y) - (x < y)
+            if int(o[0]) != e:
+                return "expected %d" % e
+        elif f == "zzIsSumEq":
+            if int(o[0]) != (1 if unhex(a[1]) + unhex(a[2]) == unhex(a[0]) else 0):
+                return "wrong flag"
+        elif f == "zzJacobi":
+            x, y = unhex(a[0]), unhex(a[1])
+            e = jacobi_ref(x, y)
+            if int(o[0]) != e:
+                return "Jacobi symbol is %d" % e
+        elif f == "zzSqrt":
+            x, n = unhex(a[0]), nwords(a[0], W)
+            e = math.isqrt(x)
+            if (unhex(o[0]), int(o[1])) != (e, 1 if e * e == x else 0):
+                return "expected %x %d" % (e, e * e == x)
+        elif f == "zzPowerMod":
+            x, e, m = unhex(a[0]), unhex(a[1]), unhex(a[2])
+            if unhex(o[0]) != pow(x, e, m):
+                return "expected %x" % pow(x, e, m)
+        elif f == "zzPowerModW":
+            if int(o[0]) != pow(int(a[0]), int(a[1]), int(a[2])):
+                return "expected %d" % pow(int(a[0]), int(a[1]), int(a[2]))
+        elif f == "ppGCD":
+            if unhex(o[0]) != pgcd(unhex(a[0]), unhex(a[1])):
+                return "expected %x" % pgcd(unhex(a[0]), unhex(a[1]))
+        elif f in ("ppInvMod", "ppDivMod"):
+            d, x, m = (1, unhex(a[1]), unhex(a[2])) if f == "ppInvMod" else (unhex(a[1]), unhex(a[2]), unhex(a[3]))
+            got = unhex(o[0])
+            if pgcd(x, m) != 1:
+                if got != 0:
+                    return "gcd(a, mod) != 1 but result != 0"
+            elif got.bit_length() >= m.bit_length() or pdivmod(clmul(got, x), m)[1] != pdivmod(d, m)[1]:
+                return "b * a != divident mod mod"
+        elif f in ("wwShLoCarry", "wwShHiCarry"):
+            x, sft, c, n = unhex(a[0]), int(a[1]), int(a[2]), nwords(a[0], W)
+            N = 1 << (n * W)
+            if f == "wwShLoCarry":
+                v = x + c * N
+                e = ((v >> sft) % N, ((v << W) >> sft) % B)
+            else:
+                v = c + x * B
+                e = (((v << sft) >> W) % N, ((v << sft) >> ((n + 1) * W)) % B)
+            if (unhex(o[0]), int(o[1])) != e:
+                return "expected %s %d" % (hx(e[0], n, W), e[1])
+        elif f == "wwNAF":
+            x, w, n = unhex(a[0]), int(a[1]), nwords(a[0], W)
+            size, code = int(o[0]), unhex(o[1])
+            # a zero symbol is one 0 bit, a non-zero one is w bits sign||magnitude
+            digits, pos = [], 0
+            for _ in range(size):
+                if (code >> pos) & 1 == 0:
+                    digits.append(0)
+                    pos += 1
+                else:
+                    d = (code >> pos) & ((1 << w) - 1)
+                    digits.append(-(d & ((1 << (w - 1)) - 1)) if d >> (w - 1) else d)
+                    pos += w
+            digits.reverse()                                   # the code of a_{l-1} comes first (lowest bits)
+            if sum(d << i for i, d in enumerate(digits)) != x:
+                return "NAF digits do not sum to a"
+            if any(d and d % 2 == 0 for d in digits) or (x and digits[-1] == 0):
+                return "NAF digit not odd / leading zero"
+            nzpos = [i for i, d in enumerate(digits) if d]
+            if any(q - p < w for p, q in zip(nzpos, nzpos[1:-1])):
+                return "two non-zero NAF digits within a window"
         elif f == "u":
             bits, x = int(t[1]), int(t[2])
             want = u_ref(bits, x)
@@ -1118,6 +1273,21 @@ def oracle(op, c_out):
     except Exception as e:      # malformed output counts as a failure of the implementation's answer
         return "unparsable implementation output (%s)" % e
     return None
+
+
+def jacobi_ref(a, n):
+    a %= n
+    result = 1
+    while a != 0:
+        while a % 2 == 0:
+            a //= 2
+            if n % 8 in (3, 5):
+                result = -result
+        a, n = n, a
+        if a % 4 == 3 and n % 4 == 3:
+            result = -result
+        a %= n
+    return result if n == 1 else 0
 
 
 def u_ref(bits, x):
@@ -1236,11 +1406,12 @@ def run(ctx):
         if W not in streams:
             g = generate(ctx, W)
             streams[W] = (g, corpus(W) + g.lines)
-            if ctx.tier == "thorough" and W == 64:
+            if W == 64:
                 streams[W][1].extend("u 16 %d" % x for x in range(65536))      # complete enumeration of the 16-bit helpers
+                ctx.cov["u16_enumerated_completely"] = True
         g, lines = streams[W]
         lines, hangs = drop_hangs(ctx, exe, lines)
-        for h in hangs:
+        for h in hangs[:6]:
             ctx.violation(key_of(h) + ":no-return", replay_text(cfg, h, "(does not return within 10 s)", "-", "the call does not terminate"), True,
                           "[%s] %s : the library call does not return" % (cfg, h[:300]))
         lines = complete(ctx, exe, lines)
@@ -1294,7 +1465,7 @@ def run(ctx):
              "2^k-1, runs of ones, per-word boundary mixes, random), moduli of every class (odd/even, Crandall, near-Crandall, "
              "top bit set/clear, prime, composite), residues 0/1/mod-1/mod/2 and pairs with a+b in {mod-1, mod, mod+1, B^n}, "
              "reduction inputs k*mod / mod*R-1 / (mod-1)^2, division operands constructed backwards for quotient digit B-1 and the "
-             "add-back branch with un-normalised divisors, every Karatsuba size, alias patterns d/ca/cb/ab/cab; "
+             "add-back branch with un-normalised divisors, every Karatsuba size, alias patterns d/ca/cb/ab/cab; all 65536 values of every 16-bit helper (complete); "
              "distinct_nontrivial = number of distinct (function, output) pairs in the 64-bit stream",
         distinct=ctx.cov.get("distinct_nontrivial", 0),
         exhaustive=False)
